@@ -289,14 +289,21 @@ Definition end_run (m : mst) (r : Z) : mst :=
   | None => m
   end.
 
+Definition owner_has_held_run (m : mst) (k : Z) : bool :=
+  existsb (fun r => mr_held r && (mr_owner r =? k)) (m_runs m).
+
+(* only the first verdict counts: an application that already has a terminal verdict, or holds a run,
+   ignores the answers of connect attempts that were still under way *)
 Definition app_terminal (m : mst) (k : Z) (code : N) : mst :=
   match find_app k (m_apps m) with
-  | Some a => w_apps m (set_app (app_with a (ma_last_attempt a) (ma_last_activity a) code false) (m_apps m))
+  | Some a => if negb (ma_terminal a =? 0)%N || owner_has_held_run m k then m
+              else w_apps m (set_app (app_with a (ma_last_attempt a) (ma_last_activity a) code false) (m_apps m))
   | None => m
   end.
 Definition app_failed_connect (m : mst) (k : Z) : mst :=
   match find_app k (m_apps m) with
-  | Some a => w_apps m (set_app (app_with a (ma_last_attempt a) (ma_last_activity a) (ma_terminal a) true) (m_apps m))
+  | Some a => if negb (ma_terminal a =? 0)%N || owner_has_held_run m k then m
+              else w_apps m (set_app (app_with a (ma_last_attempt a) (ma_last_activity a) (ma_terminal a) true) (m_apps m))
   | None => m
   end.
 
@@ -309,8 +316,6 @@ Definition backoff_ok (m : mst) (k : Z) : bool :=
   | None => true
   end.
 
-Definition owner_has_held_run (m : mst) (k : Z) : bool :=
-  existsb (fun r => mr_held r && (mr_owner r =? k)) (m_runs m).
 Definition attempt_in_progress (m : mst) (k : Z) : bool :=
   existsb (fun t => o_owner (mt_req t) =? k) (m_atts m).
 
